@@ -93,6 +93,16 @@ a copy or over the argument it stays UNDECIDED.  A mirror list rebuilt by an id 
 <empty>` is the matches; a filtered subset of the query, or a value returned on a path without any removal, is refuted; other
 unrecognised return expressions are UNDECIDED.  `A if c else A` left by element-wise tuple splices is simplified; `tuple(x)` as a
 loop source is x; WBS.__floordiv__ may hold the delegation result in a local.
+
+Round 7: the subtree search may also be FLAT (`_flat_walk`: one loop over `[cur] + cur.all_children`, also built with `+=` /
+extend / `[cur, *..]`; direct children only, the start task missing, or a filtered list are refuted); an index held in a local
+(`i = L.index(x)` ... `L.insert(i + 1, t)`) is looked up where the local is assigned; the children setter may have a separate path
+for an EMPTY value (release + clear [+ detach] + return) - releasing there without the `_detach()` step that the general path
+performs is refuted; `_to_list` written out (`[p] if isinstance(p, Task) else [t for t in p if t is not None]`) is the argument;
+remove_all may loop over a copy of the matches.  New clauses: move iterating its un-materialised argument more than once
+(one-shot iterables) is refuted; shared_list_stays_shared (5): the list query `__call__` never hands out the live list
+(`return self` / `_ImmutableTaskList(self._list)`), because remove_all walks the result while removing.  remove_all with the match
+test inside a loop over something else than the query is UNDECIDED (was a wrong `some matches are not removed`).
 """
 from __future__ import annotations
 
@@ -1581,6 +1591,73 @@ def _worklist_walk(a: A, f, cur):
     return ('ok', X, W)
 
 
+def _flat_walk(a: A, f, cur, direct):
+    """flat form of the subtree search: ONE loop over the start task and all of its descendants, listed up front
+            for X in [cur] + list(cur.all_children):        (also via a local: `c = [cur]; c += cur.all_children`)
+                if X.children.remove(task): return True
+    ('ok', X, None) | ('refute', node, message) | None"""
+    cfg = cfg_of(f)
+    loops = [n for n in walk_no_nested(f.node) if isinstance(n, ast.For)]
+    if len(loops) != 1 or any(isinstance(n, ast.While) for n in walk_no_nested(f.node)) or not isinstance(loops[0].target, ast.Name):
+        return None
+    fo = loops[0]
+    if fo.orelse or not direct or any(fo not in cfg.enclosing_fors(e.cn) for e in direct):
+        return None
+    hn = cfg.node_of(fo)
+    it = fo.iter
+    parts = None
+    if isinstance(it, ast.Name):
+        ds = flow_of(f).defs_of(it.id)
+        base = [d for d in ds if d.kind == 'assign']
+        augs = [d for d in ds if d.kind == 'aug']
+        if len(base) == 1 and len(base) + len(augs) == len(ds) and augs and base[0].value is not None and base[0].node is not None:
+            # `c = [cur]` followed by straight-line `c += <more>` before the loop
+            ok = cfg.dominates(base[0].node, hn) and not _local_mutations(f, it.id)
+            parts = _parts(a.xp(f, base[0].value, base[0].node))
+            for d in sorted(augs, key=lambda d0: d0.node.id if d0.node is not None else 0):
+                if d.node is None or not isinstance(d.stmt, ast.AugAssign) or not isinstance(d.stmt.op, ast.Add) or \
+                        not cfg.dominates(d.node, hn) or cfg.conditions(d.node) != cfg.conditions(base[0].node) or cfg.enclosing_fors(d.node):
+                    ok = False
+                    break
+                parts = parts + _parts(a.xp(f, d.stmt.value, d.node))
+            if not ok:
+                return None
+    if parts is None:
+        t = norm_list(a.xp(f, it, hn))
+        if isinstance(it, ast.Name) and t[0] == 'ref':
+            g = _grown_local(a, f, it.id, hn)
+            t = g if g is not None else t
+        parts = t[1] if t[0] == 'concat' else [t]
+    has_cur = has_desc = False
+    for p0 in parts:
+        if p0[0] == 'lit':
+            if not all(isinstance(x, ast.Name) and x.id == cur for x in p0[1]):
+                return None
+            has_cur = has_cur or bool(p0[1])
+            continue
+        if p0[0] == 'filter' and p0[3]:
+            return ('refute', fo, f"some tasks of the subtree are not searched (`{src(p0[3][0])}`)")
+        s0 = list_source(p0) if p0[0] in ('ref', 'filter') else None
+        if isinstance(s0, ast.Call) and not s0.args and isinstance(s0.func, ast.Attribute):
+            s0 = s0.func if s0.func.attr in _descendant_methods(a) else s0
+        if not (isinstance(s0, ast.Attribute) and isinstance(s0.value, ast.Name) and s0.value.id == cur):
+            return None
+        if s0.attr in ('all_children',) or s0.attr in _descendant_methods(a):
+            has_desc = True
+        elif s0.attr in ('children', '_Task__children'):
+            return ('refute', fo, f"only `{cur}` and its DIRECT children are searched (`{src(fo.iter)}`): a task deeper in the tree is "
+                                  f"never removed")
+        else:
+            return None
+    if not has_desc:
+        return None
+    if not has_cur:
+        return ('refute', fo, f"the children of `{cur}` itself are never tried: the loop covers only its descendants (`{src(fo.iter)}`)")
+    if any(d.kind != 'param' for d in flow_of(f).defs_of(cur)):
+        return None
+    return ('ok', fo.target.id, None)
+
+
 def _trampoline(a: A, f):
     """f does nothing to relations itself but calls ONE private method g of its own class with its own two parameters, and g
     is self-recursive (the real worker):  (call event, g, arguments swapped?)  or None"""
@@ -1700,7 +1777,7 @@ def delegation_wbs(a: A, ctx):
                   and any(t.qual == 'task._ChildrenList.remove' for t in e.ci.targets)]
         rec = [e for e in a.events(f) if e.kind == 'call' and f in e.ci.targets]
         ok = True
-        walk = _worklist_walk(a, f, cur) if not rec else None
+        walk = (_worklist_walk(a, f, cur) or _flat_walk(a, f, cur, direct)) if not rec else None
         visited, wl_name = cur, None
         if walk is not None and walk[0] == 'refute':
             o.refute(f, walk[1], walk[1], f"{what}: {walk[2]}")
@@ -1708,8 +1785,8 @@ def delegation_wbs(a: A, ctx):
             return
         if walk is not None:
             visited, wl_name = walk[1], walk[2]       # the task popped from the worklist is the visited one
-        elif not rec and any(isinstance(n, ast.While) for n in walk_no_nested(f.node)):
-            o.undecided(f, f.node, 'recursion', f"{what}: no recursive call, and the loop of the function is not a worklist walk over "
+        elif not rec and any(isinstance(n, (ast.While, ast.For)) for n in walk_no_nested(f.node)):
+            o.undecided(f, f.node, 'recursion', f"{what}: no recursive call, and the loop of the function is not a walk over "
                                                 f"the subtree that the rule recognises")
             for e in a.events(f):
                 e.used = True
@@ -1863,10 +1940,21 @@ def delegation_remove_all(a: A, ctx):
                     good = False
                     continue
                 it, itn, _ = resolve(f, fo.iter, cfg.node_of(fo))
+                tq = norm_list(it)
+                if is_plain_copy(tq) and list_source(tq) is not None and not isinstance(it, ast.Call) or \
+                        (is_plain_copy(tq) and isinstance(it, ast.Call) and isinstance(it.func, ast.Name) and it.func.id == 'list'):
+                    it, itn, _ = resolve(f, list_source(tq), itn)       # a copy of the matches: the same tasks
                 query = (it, itn, fo)
                 inner = path_atoms(a, f, e.cn, since=cfg.node_of(fo))
                 if inner:
-                    o.refute(f, c, inner[0][0], f"{what}: some matches are not removed (`{src(inner[0][0])}`)")
+                    over_query = isinstance(it, ast.Call) and (a.is_self(f, it.func) if single else
+                                                               (isinstance(it.func, ast.Attribute) and it.func.attr == 'tasks' and
+                                                                a.is_self(f, it.func.value)))
+                    if over_query:
+                        o.refute(f, c, inner[0][0], f"{what}: some matches are not removed (`{src(inner[0][0])}`)")
+                    else:       # a loop over something else with the match test inside: another way of selecting, not followed
+                        o.undecided(f, c, inner[0][0], f"{what}: the loop does not range over the query result and removes under "
+                                                       f"`{src(inner[0][0])[:60]}`: which tasks are removed is not followed")
                     good = False
             if not good or query is None:
                 a.leftovers(o, f, what)
@@ -1993,6 +2081,12 @@ def is_arg(a: A, f, e, at, i=1, depth=0):
     t = norm_list(e)
     if t[0] == 'filter' and not t[3]:
         return is_arg(a, f, t[1], at, i, depth + 1)
+    if t[0] == 'filter' and t[2] and all(match(f"{t[2]} is not None", c0) for c0 in t[3]):
+        return is_arg(a, f, t[1], at, i, depth + 1)      # what _to_list does: the given tasks without None entries
+    if isinstance(e, ast.IfExp) and (match("isinstance($p, Task)", e.test) or match("type($p) is Task", e.test)):
+        # `[p] if isinstance(p, Task) else <the tasks of p>`: _to_list written out
+        single = isinstance(e.body, (ast.List, ast.Tuple)) and len(e.body.elts) == 1 and is_arg(a, f, e.body.elts[0], at, i, depth + 1)
+        return single and is_arg(a, f, e.orelse, at, i, depth + 1)
     return False
 
 
@@ -2134,14 +2228,50 @@ def children_setter(a: A, ctx):
             a.absent(o, f, f.node, 'clear', "children setter never empties the old list: the given tasks are added to the old children "
                                          "instead of replacing them")
             bad = True
-        if len(clears) > 1:
+        fast, fast_tests = [], []
+        if len(clears) > 1 and not bad:
+            # a separate path for an EMPTY value (`if not value: release; clear; return`) next to the general one
+            psets = [e for e in evs if e.kind == 'setter' and e.name == 'parent']
+            main = [c0 for c0 in clears if any(cfg.can_reach(c0.cn, e.cn) for e in psets)]
+            rest = [c0 for c0 in clears if c0 not in main]
+
+            def value_empty(at, pol, cn0):
+                m0 = match("len($v) == 0", at) or match("$v == []", at)
+                if m0 and pol and is_arg(a, f, m0['v'], cn0):
+                    return True
+                m0 = match("len($v)", at) or match("len($v) > 0", at) or match("len($v) != 0", at)
+                if m0 and not pol and is_arg(a, f, m0['v'], cn0):
+                    return True
+                return isinstance(at, ast.Name) and not pol and is_arg(a, f, at, cn0)
+            okf = len(main) == 1
+            for c0 in rest:
+                atoms0 = _raw_atoms(f, c0.cn)
+                if not (okf and atoms0 and not cfg.can_reach(c0.cn, main[0].cn) and not cfg.can_reach(main[0].cn, c0.cn) and
+                        all(value_empty(at, pol, cfg.node_containing(tst)) or is_rejection(cfg, tst, pol) for at, pol, tst in atoms0)):
+                    okf = False
+                    break
+                fast_tests += [tst for at, pol, tst in atoms0 if value_empty(at, pol, cfg.node_containing(tst))]
+            if okf:
+                fast, clears = rest, main
+                dets = [e for e in evs if e.kind == 'call' and e.name == '_detach']
+                for c0 in fast:
+                    c0.used = True
+                    heads = {cfg.node_of(fo0).id for e in dets for fo0 in cfg.enclosing_fors(e.cn) if cfg.node_of(fo0) is not None} | \
+                            {e.cn.id for e in dets}
+                    if dets and _reaches_exit_avoiding(cfg, c0.cn, heads):
+                        o.refute(f, c0.node, c0.node, "on the path for an empty value the old children are unlinked and the list is emptied "
+                                                      "(`" + src(c0.node) + "`) but the function returns without the `_detach()` step that "
+                                                      "the general path performs for released tasks: assigning [] releases the children "
+                                                      "differently from assigning a list that leaves them out")
+                        bad = True
+        if len(clears) > 1 and not bad:
             o.undecided(f, clears[1].node, clears[1].node, "several clears")
             bad = True
         if bad:
             a.leftovers(o, f, 'children setter')
             return
         clear = clears[0]
-        if path_atoms(a, f, clear.cn):
+        if [x for x in path_atoms(a, f, clear.cn) if not any(x[2] is t0 for t0 in fast_tests)]:
             o.refute(f, clear.node, clear.node, "the old list is emptied only conditionally")
             return
         o.site(f, clear.node, 'in-place: ' + src(clear.node))
@@ -2224,7 +2354,7 @@ def children_setter(a: A, ctx):
         if bad:
             a.leftovers(o, f, 'children setter')
             return
-        if not a.must_pass(o, f, good, [], 'children setter'):
+        if not a.must_pass(o, f, good, [c0.cn for c0 in fast], 'children setter'):
             return
         o.site(f, good[0].stmt, f"for v in value: {src(good[0].stmt)}")
 
@@ -2245,15 +2375,21 @@ def children_setter(a: A, ctx):
                 okd = False
                 continue
             hn = cfg.node_of(fo)
-            if k[0] == 'live' and cfg.can_reach(clear.cn, hn):
-                o.refute(f, fo, fo.iter, "the loop that detaches the released tasks iterates the live list after it was emptied and "
-                                         "refilled: it sees the NEW children")
+            # the clear of the path this detach loop stands on (the general path, or the separate path for an empty value)
+            on_fast = [c0 for c0 in fast if (cfg.can_reach(c0.cn, e.cn) or cfg.can_reach(e.cn, c0.cn)) and
+                       not cfg.can_reach(clear.cn, e.cn) and not cfg.can_reach(e.cn, clear.cn)]
+            clear_d = on_fast[0] if on_fast else clear
+            if k[0] == 'live' and cfg.can_reach(clear_d.cn, hn):
+                o.refute(f, fo, fo.iter, "the loop that detaches the released tasks iterates the live list after it was emptied" +
+                         ("" if on_fast else " and refilled: it sees the NEW children"))
                 okd = False
                 continue
-            if k[0] == 'copy' and not cfg.can_reach(k[2], clear.cn):
+            if k[0] == 'copy' and not cfg.can_reach(k[2], clear_d.cn):
                 o.refute(f, fo, fo.iter, "the copy of the old children is taken after the list was emptied")
                 okd = False
                 continue
+            if on_fast and not path_atoms(a, f, e.cn, since=hn) and not filt:
+                continue        # empty value: nobody stays, every old child is released and detached
             inner = path_atoms(a, f, e.cn, since=hn)
             for c0 in filt:
                 inner = inner + [strip_not(x, q) + (c0,) for x, q in facts.split_conj(c0, True)]
@@ -3110,6 +3246,7 @@ def _index_variants(a: A, f, e, at):
             import copy
             variants.append((_Subst(sub).visit(copy.deepcopy(e)), sel, []))
     out = []
+    eval_at = {}
     for i, (x, sel, extra) in enumerate(variants):
         # locals that hold a conditional expression (`k = 0 if c else 1`) are written out so that the cases can be split
         sub = {}
@@ -3118,11 +3255,16 @@ def _index_variants(a: A, f, e, at):
                 v, vn, hops = resolve(f, n, at)
                 if hops and isinstance(v, ast.IfExp):
                     sub[n.id] = v
+                elif hops and vn is not None and any(isinstance(c0, ast.Call) and isinstance(c0.func, ast.Attribute) and
+                                                     c0.func.attr == 'index' for c0 in ast.walk(v)):
+                    # `i = L.index(anchor)` ... `L.insert(i + 1, t)`: the lookup happens where the local is assigned
+                    sub[n.id] = v
+                    eval_at[i] = vn
         if sub:
             import copy
             x = _Subst(sub).visit(copy.deepcopy(x))
             variants[i] = (x, sel, extra)
-    for x, sel, extra in variants:
+    for i, (x, sel, extra) in enumerate(variants):
         tests = {}
         for n in ast.walk(x):
             if isinstance(n, ast.IfExp):
@@ -3133,7 +3275,7 @@ def _index_variants(a: A, f, e, at):
         for k in tests:
             combos = [dict(c, **{k: v}) for c in combos for v in (True, False)]
         for ch in combos:
-            out.append((_pick_ifexp(x, ch) if ch else x, sel, at, extra + [(tests[k], v) for k, v in ch.items()]))
+            out.append((_pick_ifexp(x, ch) if ch else x, sel, eval_at.get(i, at), extra + [(tests[k], v) for k, v in ch.items()]))
     return out
 
 
@@ -3237,6 +3379,32 @@ def _reaches_exit_avoiding(cfg, start, avoid_ids):
     return False
 
 
+def _unmaterialised_param(f, it, at):
+    """the loop source is a parameter as the caller passed it - at most wrapped as `[p]` / `(p,)` on some path for the single-task
+    case - never copied into a list: the parameter's name, else None"""
+    if not isinstance(it, ast.Name) or it.id not in f.params or at is None:
+        return None
+    ds = flow_of(f).reaching(it.id, at)
+    if not any(d.kind == 'param' for d in ds):
+        return None
+    for d in ds:
+        if d.kind == 'param':
+            continue
+        v = d.value if d.kind == 'assign' else None
+        if not (isinstance(v, (ast.List, ast.Tuple)) and len(v.elts) == 1 and isinstance(v.elts[0], ast.Name) and v.elts[0].id == it.id):
+            return None
+    return it.id
+
+
+def _iterations_of(f, name):
+    """places where the local / parameter `name` is iterated: for statements and comprehension generators over the bare name"""
+    out = []
+    for n in walk_no_nested(f.node):
+        if isinstance(n, (ast.For, ast.comprehension)) and isinstance(n.iter, ast.Name) and n.iter.id == name:
+            out.append(n)
+    return out
+
+
 @part
 def move_index(a: A, ctx):
     o = ctx.ob('move_index', 'R8',
@@ -3272,6 +3440,15 @@ def move_index(a: A, ctx):
             if k is None and isinstance(c.args[1], ast.Name) and c.args[1].id in (B, AF):
                 o.refute(f, c, c, f"{what}: inserts the anchor `{src(c.args[1])}` instead of one of the tasks to move")
                 return
+            if k is not None and k[0] == 'other' and fo is not None:
+                raw = _unmaterialised_param(f, fo.iter, cfg.node_of(fo))
+                loops = _iterations_of(f, raw) if raw else []
+                if raw and len(loops) >= 2:
+                    o.refute(f, fo, fo.iter, f"{what}: the argument `{raw}` is iterated {len(loops)} times (validation and move loop) without being "
+                                             f"turned into a list first (`_to_list` / `list(..)`): for a one-shot iterable (generator, map, "
+                                             f"iterator) the first pass consumes it and the move loop sees nothing - the call returns "
+                                             f"without moving anything")
+                    return
             if k is None or k[0] == 'other':
                 o.undecided(f, c, c, f"{what}: cannot tell that `{src(c.args[1])}` ranges over the tasks to move")
                 return
@@ -4506,6 +4683,20 @@ def shared_list(a: A, ctx):
             else:
                 o.undecided(tl, tl.node, '_to_list', "_to_list does not visibly build a new list on every path (a returned argument / "
                                                      "facade would be iterated while the setter edits it)")
+        # (5) a query (`lst(key, **kw)`) hands out a NEW list of the matches: remove_all walks that result while every single
+        #     removal edits the live list (the children setter clears and refills the shared object)
+        if prog.has_func('task._ImmutableTaskList.__call__'):
+            qf = a.fn('task._ImmutableTaskList.__call__')
+            for r in returns_of(qf):
+                v = resolve(qf, r.value, cfg_of(qf).node_of(r))[0] if r.value is not None else None
+                inner = v
+                mw = match("_ImmutableTaskList($x)", v) if v is not None else None
+                if mw:
+                    inner = mw['x']
+                if inner is not None and (a.is_self(qf, inner) or a.is_self_attr(qf, inner, LIST)):
+                    o.refute(qf, r, r, f"the list query returns `{src(v)}`, i.e. the live list itself instead of a new list of the matches: "
+                                       f"remove_all() iterates the result while each removal rewrites that very list in place, so every "
+                                       f"second match survives (and is reported as removed)")
         # (3) every call of the publish callback hands over the facade's own `_list`
         for m in prog.cls('_ChildrenList').methods.values():
             for e in a.events(m):
